@@ -47,7 +47,13 @@ def build_object(sc, rng, natom):
     from iodata import IOData
     from iodata.orbitals import MolecularOrbitals
     atnums = np.array([rng.randint(1, 118) for _ in range(natom)])
-    atcoords = np.array([[round(rng.uniform(-40, 40), 6) for _ in range(3)] for _ in range(natom)]) * ANGSTROM
+    # magnitudes drawn independently of everything else: ordinary, wide (the numbers outgrow their usual ten columns) and edge values
+    span = rng.choice([40, 40, 40, 2500, 150000])
+    atcoords = np.array([[round(rng.uniform(-span, span), 6) for _ in range(3)] for _ in range(natom)])
+    if rng.random() < 0.25:
+        for _ in range(rng.randint(1, 3)):
+            atcoords[rng.randrange(natom), rng.randrange(3)] = rng.choice([-100.0, -999.999999, 1000.0, -1000.5, 12345.678901, -99.9999995, 999.9999995])
+    atcoords = atcoords * ANGSTROM
     kw = {"atnums": atnums, "atcoords": atcoords}
     for f in ("title", "lot", "obasis_name"):
         if f in sc["attrs"]:
@@ -205,7 +211,9 @@ def run_scenario(task):
                     sym_ok = False
                     continue
                 for a in range(3):
-                    if abs(float(w[1 + a]) - atcoords[i][a] / ANGSTROM) > 6e-7:
+                    # six printed decimals; the angstrom of the harness (CODATA 2018) and of the library differ by 7e-10 relative
+                    want_x = atcoords[i][a] / ANGSTROM
+                    if abs(float(w[1 + a]) - want_x) > 6e-7 + 3e-9 * abs(want_x):
                         xyz_ok = False
             ev["geom"]["symbols_ok"], ev["geom"]["coords_ok"] = sym_ok, xyz_ok
     finally:
